@@ -561,6 +561,8 @@ def c01_r6(ctx):
         ctx.viol((f.id, "insert-foreign-vector"), "the vector recorded is not the one just read from the file system", ins.where)
     blobv = f.vars_of_operand(rf.args[0])
     for (bb, idx, rv, pl) in f.constructs("work::WorkResult"):
+        if not f.dominated_by_blocks(bb, [ex.bb]):
+            continue        # a result of the branch that does not run the command (other rules)
         names = rv["kind"]["fields"]
         ops = dict(zip(names, rv["ops"]))
         if f.origins_of_operand(ops["file_state_vec"]) != payload:
@@ -808,7 +810,10 @@ def c17_r2(ctx):
         if f.body.get("impl_trait"):
             continue
         ex = sys_calls(f, "execute_command")
-        oks = [(bb, idx) for (bb, idx, rv, pl) in f.constructs("std::result::Result", "Ok") if pl["local"] == 0 and "WorkResult" in f.body.get("output", {}).get("s", "")]
+        # (the Ok results of the branch that runs the command; a function that also holds the
+        #  no-rebuild branch has other Ok results, judged by C01.R5 / C02.R6)
+        oks = [(bb, idx) for (bb, idx, rv, pl) in f.constructs("std::result::Result", "Ok") if pl["local"] == 0 and "WorkResult" in f.body.get("output", {}).get("s", "")
+               and ex and f.dominated_by_blocks(bb, [c2.bb for c2 in ex])]
         if not oks:
             continue
         ctx.saw(f)
@@ -1103,15 +1108,30 @@ def c01_r8(ctx):
         return out
     # the ticket stored beside the handle
     sp = [cs for (p2, cs, cl) in R.spawns() if cl is node][0]
-    pushes = [p for p in b.calls_to("std::vec::Vec::<T, A>::push") if p.bb in lp["body"] and "JoinHandle" in b.local_ty(p.args[1]["place"]["local"])["s"]]
+    spo = b._call_origins(sp, (), frozenset())
+    pushes = []
+    for p in b.calls_to("std::vec::Vec::<T, A>::push"):
+        if p.bb not in lp["body"] or p.args[1]["k"] not in ("copy", "move"):
+            continue
+        for o in b.origins_of_operand(p.args[1]):
+            if o[0][0] == "agg" and o[0][4] == "tuple":
+                trv = b.blocks[o[0][2]]["stmts"][o[0][3]]["rv"]
+                if any(b.origins_of_operand(x) == spo for x in trv["ops"]):
+                    pushes.append(p)
     ctx.inst("handle + ticket", pushes[0].where if pushes else sp.where)
     good = False
     for p in pushes:
         for o in b.origins_of_operand(p.args[1]):
             if o[0][0] == "agg" and o[0][4] == "tuple":
                 trv = b.blocks[o[0][2]]["stmts"][o[0][3]]["rv"]
-                t0 = b.origins_of_operand(trv["ops"][0])
-                t1 = b.origins_of_operand(trv["ops"][1])
+                if len(trv["ops"]) != 2:
+                    continue
+                # the pair (ticket, handle), in either order
+                hi = [k for k, x in enumerate(trv["ops"]) if b.origins_of_operand(x) == spo]
+                if len(hi) != 1:
+                    continue
+                t0 = b.origins_of_operand(trv["ops"][1 - hi[0]])
+                t1 = b.origins_of_operand(trv["ops"][hi[0]])
                 some = all(x[0][0] == "agg" and x[0][4].endswith("Option::Some") for x in t0) and t0
                 if some:
                     inner = set()
